@@ -10,7 +10,7 @@ from .. import spec as S
 PROP = "C15"
 
 
-def check_doc(spec, hist, infinite_weight=False):
+def check_doc(spec, hist, infinite_weight=False, mutate=True):
     """Every unmutated document must load; every single-point mutant the reference rejects must be refused.
     infinite_weight: the last event is filled with weight +inf (documents carrying "inf"/"nan" strings)."""
     import histogrammar as hg
@@ -36,6 +36,8 @@ def check_doc(spec, hist, infinite_weight=False):
         out.append(core.v_exc(PROP, "valid-doc", "fromJson rejected a document produced by toJson", e, base))
         return out, stats
     seen = set()
+    if not mutate:
+        return out, stats
     for op, locus, path, mdoc in J.mutants(doc):
         key = json.dumps(mdoc, sort_keys=True)
         if key in seen:
@@ -46,12 +48,19 @@ def check_doc(spec, hist, infinite_weight=False):
             stats["reference_accepts"] += 1
             continue
         stats["reference_rejects"] += 1
+        args = dict(base, op=op, path=list(path))
         try:
             r = hg.Factory.fromJson(json.loads(key))
         except Exception:
             stats["raised"] += 1
+            # a refusal is a verdict on the document: the same document is refused again
+            try:
+                r = hg.Factory.fromJson(json.loads(key))
+            except Exception:
+                continue
+            out.append(FW.violation(PROP, "mutant", locus, op + "/accepted-at-second-attempt", args,
+                                    {"mutated_at": list(path), "value_now": _peek(mdoc, path)}))
             continue
-        args = dict(base, op=op, path=list(path))
         try:
             got = r.toJson()
         except Exception as e:
@@ -69,11 +78,18 @@ def _peek(doc, path):
 
 
 def _tree(task):
-    spec, tier = task
+    spec, tier = task[:2]
     acc = FW.Acc()
     acc.n("trees")
     evs = A.events(spec, "core", cap=6, noop=False, weights=[1.0])
     hists = [[], [evs[0], evs[len(evs) // 2], evs[-1]]]
+    if task[2:] == ("valid-only",):
+        # only "every document toJson produces can be read back" (the mutants of these shapes are those of their parts)
+        for hist in hists:
+            vs, st = check_doc(spec, hist, mutate=False)
+            acc.add(vs)
+            acc.n("documents")
+        return acc.freeze_sets()
     if tier != "quick":
         hists.append([evs[1 % len(evs)], evs[-1], evs[-1]])
     if not any(n.get("tr") for _, _, n in S.node_ids(spec)):
@@ -141,7 +157,9 @@ def trees(tier):
 
 def run(tier, seed):
     ts = trees(tier)
-    accs = FW.pmap(_tree, [(t, tier) for t in ts], seed)
+    have = {S.key(t) for t in ts}
+    extra = [t for t in S.NEST2() if S.key(t) not in have]
+    accs = FW.pmap(_tree, [(t, tier) for t in ts] + [(t, tier, "valid-only") for t in extra], seed)
     acc = FW.Acc()
     for a in accs:
         acc.merge(a)
@@ -155,7 +173,7 @@ def run(tier, seed):
                 "entries, M7 version; mutants the reference validator still accepts are skipped and counted; non-trivial = "
                 "distinct mutants the reference rejects (each must make fromJson raise)",
         "exhaustive": True,
-        "bounds": {"trees": len(ts), "documents": acc.c.get("documents", 0)},
+        "bounds": {"trees": len(ts), "trees_checked_for_loadability_only": len(extra), "documents": acc.c.get("documents", 0)},
         "expected_to_raise": acc.c.get("reference_rejects", 0),
         "raised": acc.c.get("raised", 0),
         "skipped_still_valid": acc.c.get("reference_accepts", 0),
